@@ -1789,8 +1789,10 @@ namespace jsoncons {
                     {
                         case json_storage_kind::half_float:
                         {
-                            auto r = as_double() - rhs.as_double();
-                            return r == 0 ? 0 : (r < 0.0 ? -1 : 1);
+                            // compare the values themselves: the difference of two equal infinities is NaN
+                            const double a = as_double();
+                            const double b = rhs.as_double();
+                            return a == b ? 0 : (a < b ? -1 : 1);
                         }
                         case json_storage_kind::const_json_ref:
                             return compare(rhs.cast<const_json_ref_storage>().value());
@@ -1815,8 +1817,10 @@ namespace jsoncons {
                         }
                         case json_storage_kind::float64:
                         {
-                            auto r = cast<double_storage>().value() - rhs.cast<double_storage>().value();
-                            return r == 0 ? 0 : (r < 0.0 ? -1 : 1);
+                            // compare the values themselves: the difference of two equal infinities is NaN
+                            const double a = cast<double_storage>().value();
+                            const double b = rhs.cast<double_storage>().value();
+                            return a == b ? 0 : (a < b ? -1 : 1);
                         }
                         case json_storage_kind::const_json_ref:
                             return compare(rhs.cast<const_json_ref_storage>().value());
